@@ -5,7 +5,7 @@ from model import (path_value, dstr, strip, fact_holds, mentions_field, mentions
 from rules import (absent_from, guarded, calls_to, field_writes, who_may_call, must_pass, dominated_by,
                    full_range, loops_over, every_iteration_passes, basename, error_discipline,
                    origins, reject_if, skip_conditions_exact, is_enum, is_field, is_var,
-                   reached_only_via, canon_before_intern)
+                   reached_only_via, canon_before_intern, loop_blocks)
 from props.scan_common import (OUTDIRTY, ts_role, ts_comparisons, check_cc, effect_returns,
                                effect_assigns, true_succ)
 
@@ -164,16 +164,23 @@ def run(ctx):
                           'the re-check uses the updated most_recent_input')
     cn0 = prog.fn('Plan::CleanNode')
     isb = lambda d: isinstance(d, dict) and d.get('k') == 'var' and d['n'].split('#')[0] in ('begin', 'end')
-    for bid, b in cn0.blocks.items():
-        t = b.get('term')
-        if t and t['kind'] == 'for' and len(b['succ']) == 2 and 'operator!=(i' in dstr(cn0.eff_cond(bid)):
-            loop = {'header': bid, 'body': b['succ'][0], 'line': t['line'], 'bound': dstr(cn0.eff_cond(bid))}
+    mri_stores = [x for x in cn0.events('asg') if mentions_var(x['l'], 'most_recent_input')]
+    nmri = 0
+    for l0 in loops_over(cn0, 'Edge::inputs_'):
+        # the loop that computes most_recent_input (found by what it does, not by the name of its cursor)
+        inside = loop_blocks(cn0, l0)
+        if not any(x['_b'] in inside for x in mri_stores):
+            continue
+        nmri += 1
+        if True:
+            loop = l0
             skip_conditions_exact(
                 ctx, 'C01.O1', cn0, loop,
                 lambda x: x['k'] == 'asg' and mentions_var(x['l'], 'most_recent_input'),
                 [(lambda a: mentions_var(a, 'most_recent_input') and ('Node::mtime_' in dstr(a)), False)],
                 'restat pruning: every non-order-only input takes part in the most-recent-input '
                 'computation unless it is not newer than the current maximum', 'CleanNode:mri-extra-skip')
+    ctx.check('C01.O1', nmri >= 1, cn0.name, 'CleanNode:mri-loop', cn0.loc, 'CleanNode recomputes most_recent_input in a loop over the regular inputs')
     all_ = prog.fn('RecomputeOutputsDirtyCache::all')
     dpf = prog.fn('RecomputeOutputsDirtyCache::depfile')
     full_range(ctx, 'C01.O1', all_, 'Edge::outputs_', 'every output is checked')
